@@ -126,6 +126,19 @@ def alive_tables(run, f):
     def bi_count(it, fn, args, path, body, blk, depth):
         return [(path, ("symint", "count(%s)" % mi.show(mi._peel(args[0]))))]
 
+    def bi_upgrade(it, fn, args, path, body, blk, depth):
+        nm = mi.show(mi._peel(args[0]))
+        key = "upgrade(%s)" % nm
+        alts = [mi.NONE, mi.some(sym("strong(%s)" % nm))]
+        if key in path.assume:
+            return [(path, [x for x in alts if mi.show(x) == path.assume[key]][0])]
+        out = []
+        for alt in alts:
+            p2 = path.fork()
+            p2.assume[key] = mi.show(alt)
+            out.append((p2, alt))
+        return out
+
     for adt, d, prim in ((AR, AR + "::<T>::is_alive", "closed"), (AW, AW + "::<T>::is_alive", "count")):
         b = f.body(d)
         if not run.require(b is not None, "O11.3", "is_alive-present:%s" % adt, "%s not found" % d, "found"):
@@ -133,7 +146,8 @@ def alive_tables(run, f):
         run.count_body(b)
         flds = f.adts[adt]["variants"][0]["fields"]
         chan_idx = [i for i, fl in enumerate(flds) if "Sender" in f.ty(fl["ty"]).s and "mpsc" in f.ty(fl["ty"]).s]
-        it = Interp(f, builtins={"tokio::sync::mpsc::Sender::<T>::is_closed": bi_closed, "tokio::sync::mpsc::WeakSender::<T>::strong_count": bi_count})
+        it = Interp(f, builtins={"tokio::sync::mpsc::Sender::<T>::is_closed": bi_closed, "tokio::sync::mpsc::WeakSender::<T>::strong_count": bi_count,
+                                 "tokio::sync::mpsc::WeakSender::<T>::upgrade": bi_upgrade})
         try:
             res = it.concretize_bool(it.table(b, [("ref", sym("self"))]))
         except (mi.Unsupported, mi.Infeasible) as e:
